@@ -15,8 +15,23 @@ def cog_unit(i, spec=None, rt=None, heat=None, extra_props=(), kfun=None, n=4):
                      oracle=O.pde_oracle('Cog%d' % i, nm, spec=spec, rt=rt, heat=heat, kfun=kfun))
 
 
+G = {'gamma': (1.1, 2.5)}
+KC = 4 * 137.20 * 2.997e10 / 3      # 4 a c / 3 with the constants hard-coded in the conduction solvers
+
+
+def tau_rt(rng, p):
+    return round(rng.uniform(0.1, 3.0), 5), round(rng.uniform(0.05, 0.9) * p['tau'], 5)
+
+
 UNITS = [
-    cog_unit(1),
+    cog_unit(1, G), cog_unit(2, G), cog_unit(3), cog_unit(4, G), cog_unit(5),
+    cog_unit(6, rt=tau_rt),
+    cog_unit(8, G, heat=lambda p: (1.0, p['alpha'], p['beta'])),
+    cog_unit(9, G, heat=lambda p: (1.0, p['alpha'], p['beta'])),
+    cog_unit(11, {'gamma': (1.05, 1.6)}, heat=lambda p: (1.0, p['beta'] + 4 + (p['geometry'] - 2) / (2 - (p['gamma'] - 1) * p['geometry']), p['beta'])),
+    cog_unit(12, {'gamma': (0.3, 0.9), 'geometry': [2, 3]},
+             heat=lambda p: (1.0, (p['beta'] + 4) * (1 - p['gamma']) + (p['geometry'] - 2) * (p['gamma'] + 1) / (2 * (p['geometry'] - 1)), p['beta'])),
+    cog_unit(18, rt=tau_rt, heat=lambda p: (1.0, p['alpha'], p['beta'])),
 ]
 
 
